@@ -2,6 +2,7 @@ package props
 
 import (
 	"fmt"
+	"strings"
 
 	"github.com/hattya/go.sh/ast"
 
@@ -58,11 +59,14 @@ func c08Check(c *core.Ctx, key string, cmds []ast.Command, want []*gen.Heredoc, 
 		}
 		if h.TabTerm {
 			c.Count("heredocs/tab-indented-terminator", 1)
+			if h.MoreTabs > 0 {
+				c.Count("heredocs/terminator-indented-by-several-tabs", 1)
+			}
 		}
 		wb := gen.BodyText(h)
 		wd := h.DelimText
 		if h.TabTerm {
-			wd = "\t" + wd
+			wd = strings.Repeat("\t", 1+h.MoreTabs) + wd
 		}
 		switch {
 		case r.Op != op:
